@@ -248,6 +248,8 @@ pub struct PropDef {
     pub assumptions: &'static [&'static str],
     /// tiny configurations whose schedules are enumerated exhaustively in the thorough tier (explicit-tape policy)
     pub tiny: fn() -> Vec<Case>,
+    /// scheduled mode over long inputs / large chunks with coarse hand-over: (generator, quick cases, thorough cases)
+    pub long: Option<(GenCfg, u32, u32)>,
 }
 
 pub fn no_dense(_thorough: bool, _seed: u64) -> Vec<Case> {
@@ -287,6 +289,7 @@ pub fn tiny_cases(terms: &[Term], chains: &[&[StageKind]], inputs: &[&[u32]]) ->
                                 policy: crate::sched::Policy::Explicit,
                                 tape: vec![],
                                 weights: vec![1; 18],
+                                yield_every: 1,
                             }),
                             faults: vec![],
                         });
